@@ -44,6 +44,8 @@ class ExprMixin:
             return env[n]
         from .builtins import BUILTINS, MODULES
 
+        if n in self.names:  # module-level names bound by the contract (ghost stand-ins for imported classes / constants)
+            return self.names[n]
         if n in self.class_alias:
             return ClassRef(self.class_alias[n])
         if n in self.classes:
@@ -135,6 +137,10 @@ class ExprMixin:
 
     # ------------------------------------------------------------------ arithmetic
     def binop(self, op, a, b):
+        if hasattr(a, "sym_binop"):
+            return a.sym_binop(self, op, b, False)
+        if hasattr(b, "sym_binop"):
+            return b.sym_binop(self, op, a, True)
         ka, kb = kind_of(a), kind_of(b)
         if is_conc_num(a) and is_conc_num(b):
             try:
